@@ -5,11 +5,11 @@ package main
 // table ownership and schema facts.
 
 import (
-	"os"
 	"fmt"
 	"go/ast"
 	"go/token"
 	"go/types"
+	"os"
 	"sort"
 	"strings"
 
